@@ -128,6 +128,7 @@ impl<M: Hash + Clone + Eq, A: Ord + Hash + Clone> CmRDT for Orswot<M, A> {
     open spec fn cm_inv(&self) -> bool { base_ok::<M, A>() && self.wf() }
     open spec fn cm_pre(&self, op: &Op<M, A>) -> bool { clone_ok::<A>() && (op is Rm ==> nz(op->Rm_clock@)) }
     open spec fn cm_post(old_: &Self, op: &Op<M, A>, new_: &Self) -> bool { apply_post(*old_, *op, *new_) }
+    open spec fn cm_vpre(&self, op: &Op<M, A>) -> bool { true }
 
 //@extract fn src/orswot.rs "CmRDT for Orswot" validate_op
     fn validate_op(&self, op: &Self::Op) -> /*@ (r: @*/ Result<(), Self::Validation> /*@ ) @*/
